@@ -99,7 +99,14 @@ func (crashWorld) Gen(seed uint64, tier string) core.Scenario {
 		if pos < len(base.regions) {
 			region = base.regions[pos]
 		}
-		switch r.Intn(11) {
+		switch r.Intn(12) {
+		case 11: // a 16-bit header field gets a boundary value (no tracks, 65535 tracks, division 0 or sign bit only, unknown format)
+			hp := 8 + 2*r.Intn(3)
+			if hp+2 <= len(data) {
+				v := r.PickInt(0, 0, 1, 0xFFFF, 0x8000, 0x00FF, 0x0100, 3)
+				data[hp], data[hp+1] = byte(v>>8), byte(v)
+				c.How += "headerfield "
+			}
 		case 10: // two hostile lengths that agree with each other: a huge track length and a huge data length inside it
 			hs := regionStarts(base.regions, len(data), "chunk-len", "track-first-chunkhdr", "track-later-chunkhdr")
 			ls := regionPositions(base.regions, len(data), "meta-len", "sysex-len")
